@@ -31,6 +31,7 @@ import Verif.Model.SkipStream
 import Verif.Model.Wire
 import Verif.Model.Writer
 import Verif.Model.StrMap
+import Verif.Model.TTHeader
 import Verif.Lemmas.ReaderStep
 namespace Verif.Pools
 open Verif
@@ -522,6 +523,42 @@ def kRSD : Kind where
     match s with
     | some p => (p.release, [])
     | none => (ReaderSkipDecoderObj.zero, [])
+
+/-! ### the header codec -/
+
+/-- `ttheader.Encode(ctx, p, out)` on a NEW DefaultWriter whose regions come out of the buffer pool with
+    content `d` (region id, offset), then the caller's `PutUint32(totalLenField, len-4)` and `Flush`:
+    the frame the sink receives -/
+def tthEnc (d : Dirty) (p : TTH.EncParam) : Out TTH.EErr Bytes :=
+  let w0 : TTH.W := { items := [], n := 0, broken := false, dirt := d }
+  (TTH.encode p w0).bind fun r =>
+  (TTH.setTotalLen r.2 r.1 (r.2.bytes.length - 4)).bind fun w => .ok w.bytes
+
+inductive TthOp where
+  | enc (p : TTH.EncParam)             -- Encode + total length + Flush
+  | dec (b : Bytes) (cap : Nat)        -- DecodeFromBytes(b) with cap(b) = cap
+
+inductive TthOut where
+  | enc (r : Out TTH.EErr Bytes)
+  | dec (r : TTH.DOut TTH.DecParam)
+
+/-- the header codec: protocol/ttheader has no package-level variable and the functions keep nothing
+    between calls, so an "instance" has no state at all (`St = Unit`); what a call shares with the rest
+    of the system is the buffer pool behind the writer/reader it runs on — the `Dirty` argument -/
+def kTTH : Kind where
+  St := Unit
+  Obj := Unit
+  Arg := Unit
+  Op := TthOp
+  Out := TthOut
+  zero _ := ()
+  compat _ _ := true
+  init _ _ := ()
+  step d _ o :=
+    match o with
+    | .enc p => ((), .enc (tthEnc d p), [])
+    | .dec b cap => ((), .dec (TTH.decodeFromBytes b cap), [])
+  release _ := ((), [])
 
 /-! ## Part C: a shared read-only map -/
 
